@@ -438,3 +438,16 @@ func (m *Material) Clone() *Material {
 	}
 	return out
 }
+
+// OwnID returns the identifier recorded inside the party's config ("" if the type has none).
+func (m *Material) OwnID(id party.ID) party.ID {
+	switch c := m.Cfg[id].(type) {
+	case *frost.Config:
+		return c.ID
+	case *frost.TaprootConfig:
+		return c.ID
+	case *cmp.Config:
+		return c.ID
+	}
+	return ""
+}
